@@ -18,6 +18,18 @@ theorem keyOf_eq (top : Bool) (pmod : Option Bytes) (m n : Bytes) :
 structure ItemB where
   it : Item
   v : JV
+  /-- the value of the metadata object of a leaf with annotations (used when `it.after` is not empty) -/
+  av : JV
+
+/-- the member of a leaf / container instance and the `@name` member after it, as (name, text, value) -/
+def plainV (top : Bool) (pmod : Option Bytes) (i : ItemB) : List MemV :=
+  ⟨qualName top pmod i.it.modName i.it.name, i.it.body, i.v⟩ ::
+    (if i.it.after.isEmpty then [] else [⟨[64] ++ qualName top pmod i.it.modName i.it.name, i.it.after, i.av⟩])
+
+theorem plainMems_eq (top : Bool) (pmod : Option Bytes) (i : ItemB) :
+    plainMems top pmod i.it = (plainV top pmod i).map renderMem := by
+  unfold plainMems plainV afterMem
+  split <;> simp [renderMem, keyOf_eq, keyAt, qualName, List.append_assoc]
 
 /-- the members one run contributes, as (name, text, value) -/
 def runV (top : Bool) (pmod : Option Bytes) (first : ItemB) (more : List ItemB) : List MemV :=
@@ -26,7 +38,7 @@ def runV (top : Bool) (pmod : Option Bytes) (first : ItemB) (more : List ItemB) 
     match shown with
     | [] => []
     | f :: _ => [⟨qualName top pmod f.it.modName f.it.name, [91] ++ sep (shown.map (·.it.body)) ++ [93], .arr (shown.map (·.v))⟩]
-  else shown.map fun i => ⟨qualName top pmod i.it.modName i.it.name, i.it.body, i.v⟩
+  else shown.flatMap (plainV top pmod)
 
 def membersV (top : Bool) (pmod : Option Bytes) : List ItemB → List MemV
   | [] => []
@@ -45,10 +57,10 @@ theorem runMembers_eq (top : Bool) (pmod : Option Bytes) (i : ItemB) (more : Lis
   unfold runMembers runV
   simp only [hf]
   cases hia : i.it.isArr
-  · simp only [Bool.false_eq_true, if_false, List.map_map]
-    apply List.map_congr_left
-    intro x _
-    simp [renderMem, keyOf_eq, List.append_assoc]
+  · simp only [Bool.false_eq_true, if_false]
+    induction (List.filter (fun x => x.it.shown) (i :: more)) with
+    | nil => simp
+    | cons x t ih => simp [List.flatMap_cons, plainMems_eq, ih]
   · simp only [if_true]
     cases hsh : (i :: more).filter (·.it.shown) with
     | nil => simp
@@ -76,7 +88,8 @@ theorem members_eq_render (top : Bool) (pmod : Option Bytes) (n : Nat) : ∀ (l 
       rw [List.map_cons, members, membersV, htw, hdw, runMembers_eq, ih _ hdl, List.map_append]
 
 /-- what the reader needs of one sibling: its value text is read back, starts with a non-blank byte, names are identifiers -/
-def ItemOk (i : ItemB) : Prop := Good i.it.body i.v ∧ Starts i.it.body ∧ KeyOk i.it.modName ∧ KeyOk i.it.name
+def ItemOk (i : ItemB) : Prop :=
+  Good i.it.body i.v ∧ Starts i.it.body ∧ KeyOk i.it.modName ∧ KeyOk i.it.name ∧ (i.it.after.isEmpty = false → Good i.it.after i.av)
 
 theorem qualName_ok (top : Bool) (pmod : Option Bytes) (m n : Bytes) (hm : KeyOk m) (hn : KeyOk n) :
     KeyOk (qualName top pmod m n) := by
@@ -97,10 +110,23 @@ theorem runV_ok (top : Bool) (pmod : Option Bytes) (i : ItemB) (more : List Item
   have hsh : ∀ x ∈ (i :: more).filter (·.it.shown), ItemOk x := fun x hx => h x (List.mem_filter.1 hx).1
   unfold runV at hm
   cases hia : i.it.isArr
-  · simp only [hia, Bool.false_eq_true, if_false, List.mem_map] at hm
-    obtain ⟨x, hx, rfl⟩ := hm
-    obtain ⟨hg, _, hkm, hkn⟩ := hsh x hx
-    exact ⟨qualName_ok _ _ _ _ hkm hkn, hg⟩
+  · simp only [hia, Bool.false_eq_true, if_false, List.mem_flatMap] at hm
+    obtain ⟨x, hx, hmx⟩ := hm
+    obtain ⟨hg, _, hkm, hkn, hga⟩ := hsh x hx
+    unfold plainV at hmx
+    rcases List.mem_cons.mp hmx with rfl | hmx
+    · exact ⟨qualName_ok _ _ _ _ hkm hkn, hg⟩
+    · split at hmx
+      · cases hmx
+      · rename_i hne
+        simp only [List.mem_singleton] at hmx
+        subst hmx
+        refine ⟨?_, hga (by simpa using hne)⟩
+        intro b hb
+        simp only [List.mem_append, List.mem_singleton] at hb
+        rcases hb with rfl | hb
+        · decide
+        · exact qualName_ok _ _ _ _ hkm hkn b hb
   · simp only [hia, if_true] at hm
     cases hf : (i :: more).filter (·.it.shown) with
     | nil => rw [hf] at hm; simp at hm
@@ -108,7 +134,7 @@ theorem runV_ok (top : Bool) (pmod : Option Bytes) (i : ItemB) (more : List Item
       rw [hf] at hm hsh
       simp only [List.mem_cons, List.mem_nil_iff, or_false] at hm
       subst hm
-      obtain ⟨_, _, hkm, hkn⟩ := hsh f (by simp)
+      obtain ⟨_, _, hkm, hkn, _⟩ := hsh f (by simp)
       refine ⟨qualName_ok _ _ _ _ hkm hkn, ?_⟩
       have := good_arr ((f :: sh).map fun x => (⟨x.it.body, x.v⟩ : ItV)) (by simp)
         (by intro x hx; obtain ⟨y, hy, rfl⟩ := List.mem_map.1 hx; exact (hsh y hy).1)
@@ -176,7 +202,7 @@ def bodyV : JNode → JV
         ((metaMemV metas ++ membersV false (some modName) (itemsB kids)).map (·.v))
 def itemsB : List JNode → List ItemB
   | [] => []
-  | n :: r => ⟨itemOf n, bodyV n⟩ :: itemsB r
+  | n :: r => ⟨itemOf n, bodyV n, metaObjV n.metas⟩ :: itemsB r
 end
 
 theorem itemsB_map (l : List JNode) : (itemsB l).map (·.it) = items l := by
@@ -235,6 +261,39 @@ theorem good_value (k : VKind) (v : Bytes) (h : ValueOk k v) : Good (printValue 
     refine ⟨by simpa [printValue, valueV, sEmpty, JsonDoc.sNull, sep] using this, ⟨91, [110, 117, 108, 108, 93], ?_, by decide, by decide⟩⟩
     simp [printValue, sEmpty]
 
+/-- the metadata object is read back as the object of its annotations -/
+theorem good_metaObj (metas : List JMeta) (hmetas : ∀ m ∈ metas, KeyOk m.modName ∧ KeyOk m.name ∧ ValueOk m.kind m.value) :
+    Good (metaObjText metas) (metaObjV metas) := by
+  have hk : ∀ m ∈ metaMems metas, KeyOk m.key := by
+    intro m hm
+    obtain ⟨x, hx, rfl⟩ := List.mem_map.mp hm
+    obtain ⟨h1, h2, _⟩ := hmetas x hx
+    intro b hb
+    simp only [List.mem_append, List.mem_singleton] at hb
+    rcases hb with (hb | rfl) | hb
+    · exact h1 b hb
+    · decide
+    · exact h2 b hb
+  have hg : ∀ m ∈ metaMems metas, Good m.body m.v := by
+    intro m hm
+    obtain ⟨x, hx, rfl⟩ := List.mem_map.mp hm
+    exact (good_value x.kind x.value (hmetas x hx).2.2).1
+  have hgo := good_obj (metaMems metas) hk hg
+  rw [← metaObjText_eq] at hgo
+  exact hgo
+
+/-- the `@name` member of a leaf with annotations is read back -/
+theorem after_good (n : JNode) (hok : OkJ n) : (afterOf n).isEmpty = false → Good (afterOf n) (metaObjV n.metas) := by
+  obtain ⟨kind, sid, modName, name, shown, metas, vkind, value, kids⟩ := n
+  obtain ⟨_, _, _, _, hmetas⟩ := hok
+  by_cases hc : (kind == NKind.leaf && !metas.isEmpty) = true
+  · have e : afterOf (JNode.mk kind sid modName name shown metas vkind value kids) = metaObjText metas := by
+      unfold afterOf; exact if_pos hc
+    rw [e]; intro _; exact good_metaObj metas hmetas
+  · have e : afterOf (JNode.mk kind sid modName name shown metas vkind value kids) = [] := by
+      unfold afterOf; exact if_neg hc
+    rw [e]; intro h; simp at h
+
 theorem size_mem_le (l : List JNode) (n : JNode) (h : n ∈ l) : size n ≤ sizes l := by
   induction l with
   | nil => simp at h
@@ -252,7 +311,7 @@ theorem okJL_mem (l : List JNode) (h : OkJL l) (n : JNode) (hn : n ∈ l) : OkJ 
     · exact h.1
     · exact ih h.2 h'
 
-theorem itemsB_mem (l : List JNode) (x : ItemB) (h : x ∈ itemsB l) : ∃ n ∈ l, x = ⟨itemOf n, bodyV n⟩ := by
+theorem itemsB_mem (l : List JNode) (x : ItemB) (h : x ∈ itemsB l) : ∃ n ∈ l, x = ⟨itemOf n, bodyV n, metaObjV n.metas⟩ := by
   induction l with
   | nil => simp [itemsB] at h
   | cons a r ih =>
@@ -314,7 +373,7 @@ theorem good_node (N : Nat) : ∀ (n : JNode), size n ≤ N → OkJ n → Good (
         have hokk := okJL_mem kids hkids k hk
         obtain ⟨hg, hs⟩ := ih k hszk hokk
         obtain ⟨k1, k2, k3, k4, k5, k6, k7, k8, k9⟩ := k
-        exact ⟨hg, hs, hokk.1, hokk.2.1⟩
+        exact ⟨hg, hs, hokk.1, hokk.2.1, after_good _ hokk⟩
       have hmo := membersV_ok false (some modName) _ (itemsB kids) (Nat.le_refl _) hitems
       have := good_obj (metaMemV metas ++ membersV false (some modName) (itemsB kids))
         (fun m hm => by
@@ -347,7 +406,7 @@ theorem parseDoc_specData (forest : List JNode) (hok : OkJL forest) : parseDoc (
     have hokk := okJL_mem forest hok k hk
     obtain ⟨hg, hs⟩ := good_node (size k) k (Nat.le_refl _) hokk
     obtain ⟨k1, k2, k3, k4, k5, k6, k7, k8, k9⟩ := k
-    exact ⟨hg, hs, hokk.1, hokk.2.1⟩
+    exact ⟨hg, hs, hokk.1, hokk.2.1, after_good _ hokk⟩
   have hmo := membersV_ok true none _ (itemsB forest) (Nat.le_refl _) hitems
   have hg := good_obj (membersV true none (itemsB forest)) (fun m hm => (hmo m hm).1) (fun m hm => (hmo m hm).2)
   rw [← members_eq_render true none _ (itemsB forest) (Nat.le_refl _), itemsB_map] at hg
